@@ -17,6 +17,20 @@ import common
 from common import short
 
 MODELS = ['Match', 'Completion']
+MANIFEST = dict(
+    text='Theorems over the model of helpers.match, completion.filter_names, the sort in Completion.complete and '
+         'classes.Completion: fuzzy<->subsequence, start<->prefix, every completion matches the (case-folded) '
+         'fragment, complete is the missing suffix, prefix length = fragment length, first prefix_length characters '
+         'equal the fragment up to case (under CharwiseLower, with a kernel-checked counter-witness for the '
+         'unrestricted statement), no duplicate (name, complete), nothing matching is lost, sortedness, and '
+         '"the key tuple found in the source orders exactly as documented" stated over the translator-extracted '
+         'component list. Tie: translator + correspondence (unit level exhaustive on small strings, synthetic-name '
+         'stream, end-to-end stream on the candidates jedi collected). Attribute completeness is checked by '
+         'executing generated programs (a test, labelled as such).',
+    note='Modelled not verified: CPython str.lower (parameter), candidate collection in '
+         'Completion._complete_python, dict-key/file-name completions that are prepended.',
+    technique='Lean 4 proof over hand-written model + translator-generated constants + differential correspondence',
+    design='5.C04')
 LEAN_TARGETS = ['JediModel.Props.C04', 'JediModel.Drivers.C04']
 
 
